@@ -87,9 +87,13 @@ const (
 	vNew
 	vOther
 	vUnk
+	// vNoMig: a process that has the NEW type linked in, with its encoder and decoder registered under
+	// the new name, but never registered the migration (a third party): to it the renamed error is
+	// an unknown type, which it must carry opaquely under the original name
+	vNoMig
 )
 
-var versionNames = []string{"old", "new", "other-rename", "unknowing"}
+var versionNames = []string{"old", "new", "other-rename", "unknowing", "new-type-without-migration"}
 
 func runC17(res *Result, tier string, driver string) {
 	var cases []*Case
@@ -202,8 +206,8 @@ func runC17(res *Result, tier string, driver string) {
 	// ---- 2. the five scenarios, generalised: every assignment of code versions ----
 	for _, wrapper := range []bool{false, true} {
 		for s := vOld; s <= vOther; s++ {
-			for m := vOld; m <= vUnk; m++ {
-				for r := vOld; r <= vUnk; r++ {
+			for m := vOld; m <= vNoMig; m++ {
+				for r := vOld; r <= vNoMig; r++ {
 					runScenario(res, wrapper, s, m, r)
 				}
 			}
@@ -262,6 +266,13 @@ func setVersion(v version, wrapper bool) (mk func(msg string, cause error) error
 		}
 	case vUnk:
 		return nil, restore
+	case vNoMig:
+		local = func(msg string, cause error) error {
+			if wrapper {
+				return &MigWNew{msg, cause}
+			}
+			return &MigNew{msg}
+		}
 	}
 	// Every version registers its own encoder / decoder pair under the type key of its local type
 	// (which the migration resolves to the original name).  The encoder attaches a payload and the
@@ -353,7 +364,7 @@ func runScenario(res *Result, wrapper bool, s, m, r version) {
 	if e2.Error() != e0.Error() {
 		fail("text at receiver")
 	}
-	if mkR != nil {
+	if mkR != nil && r != vNoMig {
 		want := mkR("the msg", errors.New("cause"))
 		if fmt.Sprintf("%T", e2) != fmt.Sprintf("%T", want) {
 			fail(fmt.Sprintf("receiver decoded %T want %T", e2, want))
